@@ -15,14 +15,18 @@ type Model struct {
 	Hdr    map[uint64][]byte // header bytes by height
 	Dat    map[uint64][]byte // data bytes by height
 	Sig    map[uint64][]byte // signature by height
-	Idx    map[string]uint64 // header hash (hex) -> height, last write per hash
+	HashAt map[uint64]string // hash (hex) of the header now stored at the height
+	Idx    map[string]uint64 // header hash (hex) -> the height it was saved at
 	State  *types.State
 	Meta   map[string][]byte
-	Height uint64 // running maximum of SetHeight arguments
+	// the recorded height "only grows": it is at least the largest SetHeight argument, and at most
+	// the largest height ever named by SetHeight or by a saved block
+	MaxSet   uint64
+	MaxSaved uint64
 }
 
 func newModel() *Model {
-	return &Model{Hdr: map[uint64][]byte{}, Dat: map[uint64][]byte{}, Sig: map[uint64][]byte{}, Idx: map[string]uint64{}, Meta: map[string][]byte{}}
+	return &Model{Hdr: map[uint64][]byte{}, Dat: map[uint64][]byte{}, Sig: map[uint64][]byte{}, HashAt: map[uint64]string{}, Idx: map[string]uint64{}, Meta: map[string][]byte{}}
 }
 
 func (m *Model) clone() *Model {
@@ -36,6 +40,9 @@ func (m *Model) clone() *Model {
 	for k, v := range m.Sig {
 		c.Sig[k] = v
 	}
+	for k, v := range m.HashAt {
+		c.HashAt[k] = v
+	}
 	for k, v := range m.Idx {
 		c.Idx[k] = v
 	}
@@ -46,29 +53,57 @@ func (m *Model) clone() *Model {
 		st := *m.State
 		c.State = &st
 	}
-	c.Height = m.Height
+	c.MaxSet, c.MaxSaved = m.MaxSet, m.MaxSaved
 	return c
 }
 
+// heightCeil is the largest value Height() may report.
+func (m *Model) heightCeil() uint64 {
+	if m.MaxSaved > m.MaxSet {
+		return m.MaxSaved
+	}
+	return m.MaxSet
+}
+
 // apply performs a write operation on the model.
-func (m *Model) apply(op Op, pool []*Blk) {
+func (m *Model) apply(op Op, mt *Mat) {
 	switch op.K {
 	case "save_new", "save_same", "save_diff":
-		hb, db := pool[op.Blk], pool[op.Dat]
+		hb, db := mt.Pool[op.Blk], mt.Pool[op.Dat]
 		m.Hdr[op.H] = hb.HdrBin
 		m.Dat[op.H] = db.DatBin
 		m.Sig[op.H] = db.Sig
-		m.Idx[hex.EncodeToString(hb.Hash)] = op.H
+		hx := hex.EncodeToString(hb.Hash)
+		m.HashAt[op.H] = hx
+		m.Idx[hx] = op.H
+		if op.H > m.MaxSaved {
+			m.MaxSaved = op.H
+		}
 	case "setheight":
-		if op.H > m.Height {
-			m.Height = op.H
+		if op.H > m.MaxSet {
+			m.MaxSet = op.H
 		}
 	case "state":
-		st := mkState(op.St)
+		st := mt.state(op)
 		m.State = &st
 	case "setmeta":
-		m.Meta[op.Key] = op.Val
+		m.Meta[op.Key] = mt.metaVal(op)
 	}
+}
+
+// mayRefuse reports whether a store may answer the write with an error without breaking the
+// statement: inputs a store may legitimately validate. A refused call must leave everything as it
+// was (the caller checks that against the model, which is not advanced).
+func (m *Model) mayRefuse(op Op, mt *Mat) bool {
+	switch op.K {
+	case "save_new", "save_same", "save_diff":
+		return op.Blk != op.Dat || !mt.Pool[op.Blk].Spec.regular()
+	case "setheight":
+		return op.H <= m.heightCeil() // does not make the height grow
+	case "state":
+		return mt.state(op).ChainID == ""
+	}
+	return false
 }
 
 func stateEqual(a, b types.State) bool {
@@ -88,6 +123,8 @@ type checker struct {
 	// noVerify skips the ed25519 verification of returned headers (bulk comparisons: the returned
 	// header already equals, byte for byte, one the harness signed)
 	noVerify bool
+	// the largest Height() this checker has seen so far (over all store instances of the history)
+	seenHeight uint64
 }
 
 func (c *checker) fail(clause, format string, a ...any) {
@@ -101,10 +138,28 @@ func short(b []byte) string {
 	return hex.EncodeToString(b)
 }
 
+// blockIs compares a returned (header, data) pair with the records the model holds at height h.
+// It returns "" if they are those records.
+func (c *checker) blockIs(h uint64, hdr *types.SignedHeader, data *types.Data, wantData bool) string {
+	if hdr == nil || (wantData && data == nil) {
+		return "no error but a nil result"
+	}
+	got, merr := hdr.MarshalBinary()
+	if merr != nil || !bytes.Equal(got, c.m.Hdr[h]) {
+		return fmt.Sprintf("header differs from the last one saved at height %d (got height %d hash %s)", h, hdr.Height(), short(hdr.Hash()))
+	}
+	if wantData {
+		gd, derr := data.MarshalBinary()
+		if derr != nil || !bytes.Equal(gd, c.m.Dat[h]) {
+			return fmt.Sprintf("header is the one saved last at height %d but the data is not the data of that save", h)
+		}
+	}
+	return ""
+}
+
 // blockAt checks a (header, data) pair returned for height h against the model.
 func (c *checker) blockAt(call string, h uint64, hdr *types.SignedHeader, data *types.Data, err error, wantData bool) {
-	want, ok := c.m.Hdr[h]
-	if !ok {
+	if _, ok := c.m.Hdr[h]; !ok {
 		c.hit("read-missing")
 		if err == nil {
 			c.fail("read-missing", "%s: nothing was saved at height %d but the call succeeded", call, h)
@@ -116,13 +171,8 @@ func (c *checker) blockAt(call string, h uint64, hdr *types.SignedHeader, data *
 		c.fail("read-block", "%s: block saved at height %d is not retrievable: %v", call, h, err)
 		return
 	}
-	if hdr == nil || (wantData && data == nil) {
-		c.fail("read-block", "%s: no error but a nil result", call)
-		return
-	}
-	got, merr := hdr.MarshalBinary()
-	if merr != nil || !bytes.Equal(got, want) {
-		c.fail("read-block", "%s: header at height %d differs from the last one saved there (got height %d hash %s)", call, h, hdr.Height(), short(hdr.Hash()))
+	if p := c.blockIs(h, hdr, data, wantData); p != "" {
+		c.fail("read-block", "%s: %s", call, p)
 		return
 	}
 	// the stored header still verifies under the harness's copy of the proposer key
@@ -131,12 +181,6 @@ func (c *checker) blockAt(call string, h uint64, hdr *types.SignedHeader, data *
 			c.fail("read-block", "%s: header at height %d no longer verifies under the proposer key", call, h)
 		} else {
 			c.hit("header-signature-verifies")
-		}
-	}
-	if wantData {
-		gd, derr := data.MarshalBinary()
-		if derr != nil || !bytes.Equal(gd, c.m.Dat[h]) {
-			c.fail("read-block", "%s: data at height %d differs from the last data saved there", call, h)
 		}
 	}
 }
@@ -165,7 +209,7 @@ func (c *checker) sigAt(call string, h uint64, sig *types.Signature, err error) 
 }
 
 // read performs one read operation and compares it with the model.
-func (c *checker) read(op Op, pool []*Blk) {
+func (c *checker) read(op Op, mt *Mat) {
 	switch op.K {
 	case "getblock":
 		hdr, data, err := c.st.GetBlockData(c.ctx, op.H)
@@ -179,7 +223,7 @@ func (c *checker) read(op Op, pool []*Blk) {
 	case "getbyhash", "getsigbyhash":
 		hash := bytes.Repeat([]byte{0xEE}, 32)
 		if op.Blk >= 0 {
-			hash = pool[op.Blk].Hash
+			hash = mt.Pool[op.Blk].Hash
 		}
 		c.byHash(op.K, hash)
 	case "getstate":
@@ -192,10 +236,14 @@ func (c *checker) read(op Op, pool []*Blk) {
 			return
 		}
 		c.hit("read-state")
+		if len(c.m.State.AppHash) >= 60<<10 {
+			c.hit("read-large-value")
+		}
 		if err != nil {
 			c.fail("read-state", "GetState: %v", err)
 		} else if !stateEqual(st, *c.m.State) {
-			c.fail("read-state", "GetState returned %+v, last written %+v", st, *c.m.State)
+			c.fail("read-state", "GetState returned a state other than the last one written (chain id %q/%q, last block height %d/%d, app hash %s/%s)",
+				st.ChainID, c.m.State.ChainID, st.LastBlockHeight, c.m.State.LastBlockHeight, short(st.AppHash), short(c.m.State.AppHash))
 		}
 	case "getmeta":
 		c.meta(op.Key)
@@ -204,37 +252,68 @@ func (c *checker) read(op Op, pool []*Blk) {
 	}
 }
 
+// byHash judges a lookup by header hash.
+//
+//   - a hash never saved: an error;
+//   - the hash of the header that is the current one at the height it was saved at: exactly that
+//     save's records;
+//   - the hash of a header that was saved and has since been overwritten at its height by another
+//     header: its records are gone, so either an error or, as a whole, the block now stored at that
+//     height (what an index that is not cleaned on overwrite yields; counted in the evidence) -
+//     never records of some other height and never records of two different saves.
 func (c *checker) byHash(kind string, hash []byte) {
-	h, ok := c.m.Idx[hex.EncodeToString(hash)]
+	hx := hex.EncodeToString(hash)
+	h, ok := c.m.Idx[hx]
+	current := ok && c.m.HashAt[h] == hx
 	if kind == "getbyhash" {
 		hdr, data, err := c.st.GetBlockByHash(c.ctx, hash)
 		call := fmt.Sprintf("GetBlockByHash(%s)", short(hash))
-		if !ok {
+		switch {
+		case !ok:
 			c.hit("read-missing")
 			if err == nil {
 				c.fail("read-missing", "%s: no block with this hash was ever saved but the call succeeded", call)
 			}
-			return
-		}
-		c.hit("read-by-hash")
-		// judged per index key: the block now stored at the height this hash was last indexed to
-		c.blockAt(call, h, hdr, data, err, true)
-		if err == nil && !bytes.Equal(hdr.Hash(), hash) {
+		case current:
+			c.hit("read-by-hash")
+			c.blockAt(call, h, hdr, data, err, true)
+		default:
+			c.hit("read-by-hash-overwritten")
+			if err != nil {
+				c.count("overwritten_hash_lookup_fails", 1)
+				return
+			}
+			if p := c.blockIs(h, hdr, data, true); p != "" {
+				c.fail("read-by-hash", "%s: the header with this hash was saved at height %d and overwritten there since; the lookup returned neither an error nor the block now at that height: %s", call, h, p)
+				return
+			}
 			c.count("stale_index_observations", 1)
 		}
 		return
 	}
 	sig, err := c.st.GetSignatureByHash(c.ctx, hash)
 	call := fmt.Sprintf("GetSignatureByHash(%s)", short(hash))
-	if !ok {
+	switch {
+	case !ok:
 		c.hit("read-missing")
 		if err == nil {
 			c.fail("read-missing", "%s: no block with this hash was ever saved but the call succeeded", call)
 		}
-		return
+	case current:
+		c.hit("read-by-hash")
+		c.sigAt(call, h, sig, err)
+	default:
+		c.hit("read-by-hash-overwritten")
+		if err != nil {
+			c.count("overwritten_hash_lookup_fails", 1)
+			return
+		}
+		if sig == nil || !bytes.Equal(*sig, c.m.Sig[h]) {
+			c.fail("read-by-hash", "%s: the header with this hash was saved at height %d and overwritten there since; the lookup returned neither an error nor the signature now at that height", call, h)
+			return
+		}
+		c.count("stale_index_observations", 1)
 	}
-	c.hit("read-by-hash")
-	c.sigAt(call, h, sig, err)
 }
 
 func (c *checker) meta(key string) {
@@ -248,26 +327,41 @@ func (c *checker) meta(key string) {
 		return
 	}
 	c.hit("read-metadata")
+	if len(want) >= 60<<10 {
+		c.hit("read-large-value")
+	}
 	if err != nil {
 		c.fail("read-metadata", "GetMetadata(%q): %v", key, err)
 	} else if !bytes.Equal(v, want) {
-		c.fail("read-metadata", "GetMetadata(%q) = %s, last written %s", key, short(v), short(want))
+		c.fail("read-metadata", "GetMetadata(%q) = %s (%d bytes), last written %s (%d bytes)", key, short(v), len(v), short(want), len(want))
 	}
 }
 
+// height: the recorded height only grows - never below the largest SetHeight argument, never below
+// what an earlier Height() call reported, and never above every height the history has named.
 func (c *checker) height() {
 	h, err := c.st.Height(c.ctx)
-	c.hit("height-running-max")
-	if err != nil {
-		c.fail("height-running-max", "Height: %v", err)
-	} else if h != c.m.Height {
-		c.fail("height-running-max", "Height() = %d, the largest height ever set is %d", h, c.m.Height)
+	c.hit("height-only-grows")
+	switch {
+	case err != nil:
+		c.fail("height-only-grows", "Height: %v", err)
+	case h < c.m.MaxSet:
+		c.fail("height-only-grows", "Height() = %d, below the largest height ever set (%d)", h, c.m.MaxSet)
+	case h < c.seenHeight:
+		c.fail("height-only-grows", "Height() = %d after an earlier call returned %d", h, c.seenHeight)
+	case h > c.m.heightCeil():
+		c.fail("height-only-grows", "Height() = %d, above every height ever set (max %d) or saved (max %d)", h, c.m.MaxSet, c.m.MaxSaved)
+	default:
+		if h != c.m.MaxSet {
+			c.count("height_above_largest_set_height", 1)
+		}
+		c.seenHeight = h
 	}
 }
 
 // all compares the complete observable state with the model: every height and hash of the
 // sequence (present or not), the state, every metadata key of the sequence, and the height.
-func (c *checker) all(heights []uint64, pool []*Blk, keys []string) {
+func (c *checker) all(heights []uint64, mt *Mat, keys []string) {
 	nv := c.noVerify
 	c.noVerify = true
 	defer func() { c.noVerify = nv }()
@@ -279,11 +373,11 @@ func (c *checker) all(heights []uint64, pool []*Blk, keys []string) {
 		sig, err := c.st.GetSignature(c.ctx, h)
 		c.sigAt(fmt.Sprintf("GetSignature(%d)", h), h, sig, err)
 	}
-	for _, b := range pool {
+	for _, b := range mt.Pool {
 		c.byHash("getbyhash", b.Hash)
 		c.byHash("getsigbyhash", b.Hash)
 	}
-	c.read(Op{K: "getstate"}, pool)
+	c.read(Op{K: "getstate"}, mt)
 	for _, k := range keys {
 		c.meta(k)
 	}
